@@ -54,6 +54,16 @@ func (a *auditor) reads(e ast.Expr, out *[]string) {
 	ast.Inspect(e, func(n ast.Node) bool {
 		switch x := n.(type) {
 		case *ast.CallExpr:
+			// builtins that change their first argument in place: delete(db.f, k), clear(db.f), copy(db.f, ..)
+			if id, ok := x.Fun.(*ast.Ident); ok && (id.Name == "delete" || id.Name == "clear" || id.Name == "copy") && len(x.Args) > 0 {
+				if f := a.fieldOf(x.Args[0]); f != "" {
+					for _, arg := range x.Args[1:] {
+						a.reads(arg, out)
+					}
+					*out = append(*out, fmt.Sprintf("SEv (AWrite %q)", f))
+					return false
+				}
+			}
 			if s, ok := x.Fun.(*ast.SelectorExpr); ok {
 				// db.mux.X()
 				if s2, ok := s.X.(*ast.SelectorExpr); ok {
